@@ -35,7 +35,7 @@ pub fn strategy(_s: &'static dyn Proto) -> BoxedStrategy<Case> {
         gen::cred_id(),
         gen::opt_ctx(gen::bytes_small()),
         any::<bool>(),
-        gen::tape(),
+        gen::tape_plain(),
     )
         .prop_map(|(pw, pw_other, cred, cred_other, ctx, explicit_ids, tape)| Case {
             pw,
@@ -259,6 +259,7 @@ pub fn check(s: &'static dyn Proto, c: &Case, st: &mut Stats, _k: &KnownFindings
 pub const BUDGET: Budget = Budget {
     quick: (12, 12, 6),
     thorough: (40, 40, 20),
+    shrink: 12,
 };
 
 pub fn run(cfg: &RunCfg) -> (Outcome, EvidenceExtra) {
